@@ -1,5 +1,6 @@
-(* CertifyProofs.v - property C02 at the level of the compiler, part 1: the typing discipline and its
-   combinators (the induction over the tree is in CertifyProofsB.v).
+(* CertifyProofs.v - property C02 at the level of the compiler, part 1: the typing discipline, its
+   combinators, and the expressions without jumps (statements and blocks: CertifyProofsB.v; als, zolang,
+   functie, the induction over the tree and the theorem compile_certifies: CertifyProofsC.v).
 
    Every expression's code, entered with a bound h, reaches its end with h + 1; every statement's code
    reaches its end with h.  The judgement `seg st st' m LH hin E C` says: the compiler went from st to
@@ -941,3 +942,6 @@ Proof.
     eapply iok_call; [exact HB|exact LF|lia|lia|].
     replace (h + zlength args + 1 - zlength args) with (h + 1) by lia. exact HE.
 Qed.
+
+Print Assumptions case_infix.
+Print Assumptions case_call.
